@@ -62,6 +62,8 @@ type faultsIn struct {
 	Ops [][]string `json:"ops,omitempty"`
 	// cmd fan without getPwm (it is optional): a fan without FeaturePwmSensor
 	NoGetPwm bool `json:"no_get_pwm,omitempty"`
+	// selects the garbage shapes of this case (index into the shape tables, advanced by every garbage read)
+	GarbageSel int `json:"garbage_sel,omitempty"`
 }
 type faultsObs struct {
 	Kind    int      `json:"kind"` // 0 regulating, 1 stopped after restore, 2 crash
@@ -72,6 +74,7 @@ type faultsObs struct {
 	Stalled []bool   `json:"stalled"`
 	LastW   bool     `json:"last_write_faulted"`
 	Cyc     [][2]int `json:"cyc"` // per cycle that ended without error: (request, PWM the device shows)
+	Avgs    []string `json:"avgs"` // sensor moving average after the monitor poll of each cycle (exact, hex)
 	Trace   [][]int  `json:"trace,omitempty"`
 	Panic   string   `json:"panic,omitempty"`
 }
@@ -85,6 +88,7 @@ type faultsEnv struct {
 	nPwmReads                         int
 	ops                               []string
 	perOp                             bool
+	garbageSel, nGarbage              int
 	opPlan                            []string // per-operation mode: faults of the current cycle
 	opIdx                             int
 	trace                             []int
@@ -124,6 +128,19 @@ func (f *faultsFan) SetPwmEnabled(m fans.ControlMode) error {
 		f.env.ops = append(f.env.ops, "OpWMode "+cZ(int(m)))
 	}
 	return f.Fan.SetPwmEnabled(m)
+}
+
+// what a "garbage" read returns: every shape is rejected by the unchanged parsers (ReadIntFromFile: empty file
+// or strconv.Atoi error; cmd backends: strconv.ParseFloat error / not finite), so the model treats all of them as
+// a failed read.  The shape used is picked by (case selector + number of garbage reads so far).
+var faultsGarbageFile = []string{"\n", "", " ", " \n", "\t\n", "\r\n", "abc\n", "12abc\n", "1 2\n", "-\n", "+\n", "0x10\n",
+	"99999999999999999999999999\n", "\x0012\n", "12\x00\n", "4 5 mC\n", strings.Repeat("7", 5000) + "\n", "1.5\n", "NaN\n"}
+var faultsGarbageCmd = []string{"xyz", "", " ", "12abc", "1 2", "-", "0x", "1,5", "NaN", "+Inf", "--5", "\t"}
+
+func (e *faultsEnv) garbageFile() []byte {
+	s := faultsGarbageFile[(e.garbageSel+e.nGarbage)%len(faultsGarbageFile)]
+	e.nGarbage++
+	return []byte(s)
 }
 
 var (
@@ -176,7 +193,7 @@ func faultsInstallHooks() {
 		case "":
 			return nil, nil, false
 		case "garbage":
-			return []byte("xyz\n"), nil, true
+			return e.garbageFile(), nil, true
 		default:
 			return nil, &fs.PathError{Op: "read", Path: path, Err: syscall.EIO}, true
 		}
@@ -255,7 +272,7 @@ fi
 case "$k" in
   error) echo failing >&2; exit 1 ;;
   timeout) sleep 3; exit 0 ;;
-  garbage) if [ "$c" = set ]; then exit 0; fi; echo xyz; exit 0 ;;
+  garbage) if [ "$c" = set ]; then exit 0; fi; cat "$d/garbage.$c"; exit 0 ;;
 esac
 case "$c" in
   set) echo "$3" > "$d/pwm1" ;;
@@ -280,6 +297,15 @@ func (e *faultsEnv) setCmdFault(comp, kind string) {
 	case "cannotstart":
 		os.Chmod(sc, 0644) // root-owned, not writable by others: passes the permission check, cannot be started
 	default:
+		if kind == "garbage" {
+			tbl := faultsGarbageCmd
+			if comp != "temp" {
+				tbl = tbl[:8] // CmdFan.GetPwm / GetRpm take NaN and Inf for numbers (int(NaN)): not a failed read there
+			}
+			g := tbl[(e.garbageSel+e.nGarbage)%len(tbl)]
+			e.nGarbage++
+			os.WriteFile(filepath.Join(e.dir, "garbage."+comp), []byte(g), 0644)
+		}
 		os.WriteFile(p, []byte(kind), 0644)
 	}
 }
@@ -456,6 +482,9 @@ func faultsRun(ctx *Ctx, seq int, in faultsIn) (faultsObs, string, []string) {
 		}
 	}
 	e.perOp = len(in.Ops) > 0
+	e.garbageSel = in.GarbageSel
+	avg0 := sensor.GetMovingAvg()
+	var avgs []float64
 	for k, y := range in.Plan {
 		e.cur = y
 		if e.perOp {
@@ -491,6 +520,8 @@ func faultsRun(ctx *Ctx, seq int, in faultsIn) (faultsObs, string, []string) {
 		if crashed(faultsCatch(func() { _ = internal.VerifUpdateSensor(sensor) })) {
 			break
 		}
+		avgs = append(avgs, sensor.GetMovingAvg())
+		obs.Avgs = append(obs.Avgs, jF(sensor.GetMovingAvg()))
 		if fan.Supports(fans.FeatureRpmSensor) {
 			setPhase("rpm")
 			if crashed(faultsCatch(func() { c.VerifMeasureRpm() })) {
@@ -560,12 +591,21 @@ func faultsRun(ctx *Ctx, seq int, in faultsIn) (faultsObs, string, []string) {
 	for _, t := range obs.Trace {
 		trs = append(trs, cZList(t))
 	}
+	temps := make([]int, len(in.Plan))
+	for i, y := range in.Plan {
+		temps[i] = y.Temp
+	}
+	avgsC := make([]string, len(avgs))
+	for i, a := range avgs {
+		avgsC[i] = cF(a)
+	}
 	var cycs []string
 	for _, cy := range obs.Cyc {
 		cycs = append(cycs, "("+cZ(cy[0])+", "+cZ(cy[1])+")")
 	}
 	coq := cRec("mkCase", combo, dev(in.OrigMode, in.OrigPwm), dev(d0Mode, d0Pwm), cList(plan),
-		cZ(obs.Kind), cZ(obs.Cycle), dev(obs.Mode, obs.Pwm), cList(ops), cList(ocs), cBool(obs.LastW), cList(trs), cList(cycs))
+		cZ(obs.Kind), cZ(obs.Cycle), dev(obs.Mode, obs.Pwm), cList(ops), cList(ocs), cBool(obs.LastW), cList(trs), cList(cycs),
+		cZ(configuration.CurrentConfig.TempRollingWindowSize), cF(avg0), cZList(temps), cList(avgsC))
 	tags := []string{"fan=" + in.Fan, "sensor=" + in.Sensor, "curve=" + in.Curve.T, "outcome=" + []string{"regulating", "stopped", "crash"}[obs.Kind]}
 	if in.Curve.T == "func" {
 		if faultsCurveHasPid(in.Curve) {
@@ -722,7 +762,8 @@ func init() {
 			mkIn := func(cb comboT, plan []faultsCyc) faultsIn {
 				in := faultsIn{Fan: cb.fan, Sensor: cb.sensor, Curve: cb.curve, EnableExists: cb.fan == "hwmon" && !rng.Chance(1, 5),
 					HasRpm: rng.Chance(2, 3), NeverStop: false, Rpm: 1200, Alg: []string{"direct", "pid"}[rng.Intn(2)],
-					OrigMode: rng.Pick([]int{0, 1, 2, 2, 2, 5}), OrigPwm: rng.Pick([]int{0, 77, 120, 255}), Plan: plan}
+					OrigMode: rng.Pick([]int{0, 1, 2, 2, 2, 5}), OrigPwm: rng.Pick([]int{0, 77, 120, 255}), Plan: plan,
+					GarbageSel: rng.Intn(64)}
 				return in
 			}
 			// (a) every single fault (kind x component x cycle); sampled down to the budget for the quick tier
@@ -905,6 +946,31 @@ func init() {
 							jobs = append(jobs, job{in, []string{"stale-write-shape"}})
 						}
 					}
+				}
+			}
+			// (h) whitespace-only / empty content for EVERY file read (sensor value, rpm input, pwm, pwm_enable read-back):
+			//     shapes 0..5 of the garbage table, as a regime fault of each read component and as a per-operation
+			//     fault on each of the first 15 operations of a cycle
+			for _, cb := range fcombos {
+				if cb.curve.T == "func" && cb.curve.Fn != "maximum" {
+					continue
+				}
+				for _, comp := range []string{"sensor", "rpm", "pwmread"} {
+					for sel := 0; sel < 6; sel++ {
+						k := (sel + len(comp)) % 3
+						in := mkIn(cb, mkPlan([]faultsSpec{{comp, "garbage", 0}}, []int{k}))
+						in.HasRpm, in.GarbageSel = true, sel
+						jobs = append(jobs, job{in, []string{"whitespace-read"}})
+					}
+				}
+				for i := 0; i < 15; i++ {
+					ops := make([][]string, 3)
+					row := make([]string, i+1)
+					row[i] = "garbage"
+					ops[i%2] = row
+					in := mkOps(cb, ops)
+					in.HasRpm, in.EnableExists, in.GarbageSel = true, cb.fan == "hwmon", i%6
+					jobs = append(jobs, job{in, []string{"whitespace-read", "perop-single"}})
 				}
 			}
 			// (e) timeouts (2 s per command): few, on command components only
